@@ -476,6 +476,68 @@ def f27():
     return ok, f"params_dict['inventory_restoration_tau'] = {got}"
 
 
+@trigger("F28", ["C09", "C11"])
+def f28():
+    """a user recovery function with the documented parameter names in another order is evaluated, not refused at its first step"""
+    tb = base_table()
+    cfg = base_cfg()
+    ev = rec_event(tb, cfg, frac=0.05, occ=2, dur=1, tau=4, curve="user_init_first")
+    sim = run_loop(mk_sc(tb, cfg, [ev], T=10))
+    rec = sim.productive_capital_to_recover.to_numpy(dtype=float).sum(axis=1)
+    return bool(rec[3] > 0 and rec[5] < rec[3]), f"capital to recover at t = 3, 4, 5: {rec[3:6].tolist()}"
+
+
+@trigger("F29", ["C16"])
+def f29():
+    """a run that only asks for the parameters file writes it"""
+    import pathlib
+    import shutil
+    tb = base_table()
+    cfg = base_cfg()
+    d = tempfile.mkdtemp(prefix="verif_f29_")
+    try:
+        sim = Simulation(scen.build_model(tb, cfg), n_temporal_units_to_sim=4, save_params=True, boario_output_dir=d)
+        quiet_loop(sim)
+        found = list(pathlib.Path(d).rglob("simulated_params.json"))
+        return bool(found), f"files written: {[f.name for f in pathlib.Path(d).rglob('*.json')]}"
+    finally:
+        shutil.rmtree(d, ignore_errors=True)
+
+
+@trigger("F30", ["C16"])
+def f30():
+    """the saved description of an event follows its public setters"""
+    tb = base_table()
+    cfg = base_cfg()
+    evo = scen.build_event(rec_event(tb, cfg, frac=0.05, occ=2, dur=1, tau=4))
+    evo.occurrence = 5
+    evo.duration = 2
+    return evo.event_dict["occurrence"] == 5 and evo.event_dict["duration"] == 2, f"event_dict: {evo.event_dict['occurrence']}, {evo.event_dict['duration']}"
+
+
+@trigger("F31", ["C20", "C08"])
+def f31():
+    """a negative household damage is refused"""
+    tb = base_table(m=2, n=3, k=1)
+    cfg = base_cfg()
+    ev = reb_event(tb, cfg, frac=0.05, occ=2, dur=1, tau=4, house={"rA|gov": 40.0, "rB|gov": -10.0})
+    try:
+        sim = run_loop(mk_sc(tb, cfg, [ev], T=8))
+    except Exception:
+        return True, "rejected / reported"
+    bad = bool(np.isnan(sim.rebuild_demand.to_numpy(dtype=float)[2:8]).any())
+    return (not bad) or bool(sim.has_crashed), f"accepted; NaN recorded: {bad}"
+
+
+@trigger("F32", ["C12"])
+def f32():
+    """an industry listed twice among the affected industries is that industry once"""
+    e = bev.from_scalar_industries(900.0, event_type="recovery", recovery_tau=5, event_monetary_factor=10**6, occurrence=1, duration=1,
+                                   affected_industries=[("rA", "agri"), ("rA", "agri"), ("rB", "agri")], impact_distrib="equal")
+    imp = e.impact
+    return (not imp.index.has_duplicates) and abs(float(imp.sum()) - 900.0) < 1e-9, f"impact: {imp.to_dict()}"
+
+
 def run_all(props=None, only=None):
     res = {}
     for fid, t in TRIGGERS.items():
